@@ -6,6 +6,7 @@ package main
 
 import (
 	"encoding/json"
+	"errors"
 	"fmt"
 	"os"
 	"os/exec"
@@ -31,6 +32,81 @@ var toFuncs = map[string]func(ap.Item) (interface{}, error){
 	"ToRelationship":          func(it ap.Item) (interface{}, error) { return ap.ToRelationship(it) },
 	"ToTombstone":             func(it ap.Item) (interface{}, error) { return ap.ToTombstone(it) },
 	"ToLink":                  func(it ap.Item) (interface{}, error) { return ap.ToLink(it) },
+	// the callback helpers: the view is what the callback receives
+	"OnObject": func(it ap.Item) (interface{}, error) {
+		var v *ap.Object
+		return onResult(&v, ap.OnObject(it, func(o *ap.Object) error { v = o; return errSeen }))
+	},
+	"OnActor": func(it ap.Item) (interface{}, error) {
+		var v *ap.Actor
+		return onResult(&v, ap.OnActor(it, func(o *ap.Actor) error { v = o; return errSeen }))
+	},
+	"OnActivity": func(it ap.Item) (interface{}, error) {
+		var v *ap.Activity
+		return onResult(&v, ap.OnActivity(it, func(o *ap.Activity) error { v = o; return errSeen }))
+	},
+	"OnIntransitiveActivity": func(it ap.Item) (interface{}, error) {
+		var v *ap.IntransitiveActivity
+		return onResult(&v, ap.OnIntransitiveActivity(it, func(o *ap.IntransitiveActivity) error { v = o; return errSeen }))
+	},
+	"OnQuestion": func(it ap.Item) (interface{}, error) {
+		var v *ap.Question
+		return onResult(&v, ap.OnQuestion(it, func(o *ap.Question) error { v = o; return errSeen }))
+	},
+	"OnCollection": func(it ap.Item) (interface{}, error) {
+		var v *ap.Collection
+		return onResult(&v, ap.OnCollection(it, func(o *ap.Collection) error { v = o; return errSeen }))
+	},
+	"OnCollectionPage": func(it ap.Item) (interface{}, error) {
+		var v *ap.CollectionPage
+		return onResult(&v, ap.OnCollectionPage(it, func(o *ap.CollectionPage) error { v = o; return errSeen }))
+	},
+	"OnOrderedCollection": func(it ap.Item) (interface{}, error) {
+		var v *ap.OrderedCollection
+		return onResult(&v, ap.OnOrderedCollection(it, func(o *ap.OrderedCollection) error { v = o; return errSeen }))
+	},
+	"OnOrderedCollectionPage": func(it ap.Item) (interface{}, error) {
+		var v *ap.OrderedCollectionPage
+		return onResult(&v, ap.OnOrderedCollectionPage(it, func(o *ap.OrderedCollectionPage) error { v = o; return errSeen }))
+	},
+	"OnPlace": func(it ap.Item) (interface{}, error) {
+		var v *ap.Place
+		return onResult(&v, ap.OnPlace(it, func(o *ap.Place) error { v = o; return errSeen }))
+	},
+	"OnProfile": func(it ap.Item) (interface{}, error) {
+		var v *ap.Profile
+		return onResult(&v, ap.OnProfile(it, func(o *ap.Profile) error { v = o; return errSeen }))
+	},
+	"OnRelationship": func(it ap.Item) (interface{}, error) {
+		var v *ap.Relationship
+		return onResult(&v, ap.OnRelationship(it, func(o *ap.Relationship) error { v = o; return errSeen }))
+	},
+	"OnTombstone": func(it ap.Item) (interface{}, error) {
+		var v *ap.Tombstone
+		return onResult(&v, ap.OnTombstone(it, func(o *ap.Tombstone) error { v = o; return errSeen }))
+	},
+	"OnLink": func(it ap.Item) (interface{}, error) {
+		var v *ap.Link
+		return onResult(&v, ap.OnLink(it, func(o *ap.Link) error { v = o; return errSeen }))
+	},
+}
+
+// errSeen is returned by the capturing callbacks: a helper must hand the callback's error back to its caller
+var errSeen = errors.New("callback ran")
+
+// onResult: the view a callback helper presented (nil pointer when the callback never ran)
+func onResult(view interface{}, err error) (interface{}, error) {
+	v := reflect.ValueOf(view).Elem()
+	if v.IsNil() {
+		if err == nil {
+			return nil, errors.New("silent: no callback, no error")
+		}
+		return nil, err
+	}
+	if err != errSeen {
+		return nil, fmt.Errorf("callback-error-lost: %v", err)
+	}
+	return v.Interface(), nil
 }
 
 func fillValue(fv reflect.Value, tag string) {
@@ -95,6 +171,11 @@ func c08One(fn, gt, form string) J {
 	}
 	if err != nil {
 		res["outcome"] = "refused"
+		if m := err.Error(); strings.HasPrefix(m, "silent:") {
+			res["outcome"] = "silent"
+		} else if strings.HasPrefix(m, "callback-error-lost:") {
+			res["outcome"] = "error-lost"
+		}
 		return res
 	}
 	vv := reflect.ValueOf(view)
